@@ -1128,14 +1128,24 @@ def _native_roundtrip(tier="quick", seed=0):
         src = _decks()[1][1]
         zipfile.ZipFile(io.BytesIO(src)).extractall(os.path.join(d, "dir"))
         open(os.path.join(d, "f.pptx"), "wb").write(src)
+        # the directory form also as a user's file system may hold it: reached through a link, one sub-directory linked from elsewhere
+        os.symlink(os.path.join(d, "dir"), os.path.join(d, "dirlink"))
+        shutil.copytree(os.path.join(d, "dir"), os.path.join(d, "dir2"))
+        subdirs = sorted(os.path.join(r_, x_) for r_, ds_, _ in os.walk(os.path.join(d, "dir2")) for x_ in ds_ if x_ != "_rels")
+        deepest = max(subdirs, key=lambda p_: p_.count(os.sep))
+        shutil.move(deepest, os.path.join(d, "elsewhere"))
+        os.symlink(os.path.join(d, "elsewhere"), deepest)
         views = []
-        for arg in (os.path.join(d, "dir"), os.path.join(d, "f.pptx"), io.BytesIO(src)):
+        forms = [("directory", os.path.join(d, "dir")), ("path", os.path.join(d, "f.pptx")), ("stream", io.BytesIO(src)), ("directory reached through a symbolic link", os.path.join(d, "dirlink")),
+                 ("directory with a symbolically linked sub-directory (%s)" % os.path.relpath(deepest, os.path.join(d, "dir2")), os.path.join(d, "dir2"))]
+        for label, arg in forms:
             out = io.BytesIO()
             OpcPackage.open(arg).save(out)
             views.append(_pkg_view(out.getvalue()))
             evals += 1
-        if not (views[0] == views[1] == views[2]):
-            bad = "directory / path / stream forms of one package save differently"
+        for (label, _), v_ in zip(forms, views):
+            if v_ != views[2]:
+                bad = bad or "the %s form of a package saves differently from its stream form (%d parts vs %d)" % (label, len(v_[0]), len(views[2][0]))
     finally:
         shutil.rmtree(d, ignore_errors=True)
     rec("C01.native.directory_path_stream_forms_agree", bad)
